@@ -291,7 +291,12 @@ impl<B: WordWrite> WordWrite for Recording<B> {
     type Word = B::Word;
     fn write_word(&mut self, word: B::Word) -> Result<(), B::Error> {
         self.inner.write_word(word)?;
-        self.log.borrow_mut().extend_from_slice(word.to_ne_bytes().as_ref());
+        // (an operation of the code under test that delivers megabytes is a runaway: it is reported as such by
+        // the session and the rest of its output is not kept)
+        let mut log = self.log.borrow_mut();
+        if log.len() < RUNAWAY_BYTES + 64 {
+            log.extend_from_slice(word.to_ne_bytes().as_ref());
+        }
         Ok(())
     }
     fn flush(&mut self) -> Result<(), B::Error> {
@@ -299,6 +304,9 @@ impl<B: WordWrite> WordWrite for Recording<B> {
         self.inner.flush()
     }
 }
+
+/// no single operation of any driver legitimately delivers this many bytes
+pub const RUNAWAY_BYTES: usize = 1 << 20;
 
 thread_local! {
     /// number of flush() calls that reached a recording backend (on this thread)
